@@ -93,6 +93,12 @@ func (t *sleepTransaction) resendDisconnect() {
 	t.mutex.Lock()
 	defer t.mutex.Unlock()
 
+	select {
+	case <-t.Done():
+		// The transaction has finished while the timer was firing.
+		return
+	default:
+	}
 	if t.disconnect == nil {
 		// The DISCONNECT has been acknowledged while the timer was firing.
 		return
@@ -146,6 +152,12 @@ func (t *sleepTransaction) startSleep() {
 }
 
 func (t *sleepTransaction) wakeup() {
+	select {
+	case <-t.Done():
+		// The transaction has finished while the timer was firing.
+		return
+	default:
+	}
 	t.client.setState(util.StateAwake)
 	t.log.Debug("Awake")
 	t.state = awaitingPingresp
